@@ -2,6 +2,7 @@
 import importlib
 
 PROPS = {
+    "C13": [("u_discover", "quick")],
     "C08": [("u_capt", "quick")],
     "C16": [("u_pkgallow", "quick"), ("u_orphan", "quick")],
     "C10": [("u_intlit", "quick"), ("u_dcefx", "quick")],
